@@ -9,6 +9,11 @@ CLAIMS = {
         "note": "Decided here: the lexical layer and the token-kind automaton, which every entry point (IsValid, ReadToken, ReadValue) is built from. Not decided by proof: the composition in decoderState.ReadToken/ReadValue/consumeValue/consumeObject/consumeArray (thin safety/depth contracts only where listed in the evidence), objectNamespace.insert (duplicate names; map-based), the stream-concatenation clause, and json.Unmarshal into any.",
         "ref": "DESIGN.md §3 C01",
     },
+    "C04": {
+        "text": "Proof of the integer leaf codecs the round trip rests on: jsonwire.ParseUint is exact for every digit string (value, overflow exactly at 2^64, syntax); negateSecNano negates sec+nsec/1e9 exactly with nanoseconds kept in [0,1e9); mayAppendDurationSign/mayApplyDurationSign yield |d| and +-n in two's complement including MinInt64; appendTimeUnix computes its scaled integer part sec*pow10 + nsec/(1e9/pow10) without wrap-around in the branch that multiplies, for every representable time and each of the four units; appendFracBase10/appendPaddedBase10 only append; consumeSign, bytesCutByte, parseDec2 equal their specifications; uintSet (field ids of wide structs) is an exact set: insert reports first insertion and changes no other member across growth.",
+        "note": "Assumed: strconv.AppendUint, bytes.TrimRight/IndexByte, time.Time accessors (library contracts listed in the evidence). Not decided by proof: the text-level inverse parse(append(x)) = x for durations and times (parsePaddedBase10/parseDurationBase10/parseTimeUnix functional contracts), float and base64 codecs, and composition over structs/maps/slices/pointers and option symmetry (reflection).",
+        "ref": "DESIGN.md §3 C04",
+    },
     "C05": {
         "text": "Proof that the resumable scanners are chunking-independent: ConsumeStringResumable called with any resumeOffset produced by an earlier truncated call returns what a fresh scan of the whole buffer returns (same end, same error class, same flags monotonicity), every io.ErrUnexpectedEOF return yields a resume offset at a unit boundary, ConsumeNumberResumable's (resumeOffset, state) pair denotes the automaton state reached by a fresh scan, and hasEscapedUTF16Prefix accepts exactly the prefixes of \\uXXXX (low-surrogate-restricted when asked). Plus, where listed in the evidence, the decoder's buffer algebra (decodeBuffer offsets, fetch, consume* re-anchoring).",
         "note": "Decided here: the places where a token split across reads is re-assembled (surrogate pairs, exponent markers, truncated escapes). Not decided by proof: interleavings of ReadToken/ReadValue/PeekKind with the peek cache, transient reader faults, the bytes.Buffer specialisation, UnmarshalRead/UnmarshalDecode equivalence (arshal layer).",
@@ -38,6 +43,16 @@ CLAIMS = {
         "text": "Proof that AppendQuote equals the escaping specification quoteSpec for every input and every combination of EscapeForHTML/EscapeForJS/AllowInvalidUTF8: output is dst ++ '\"' ++ spelling ++ '\"' where each ASCII byte that must be escaped becomes its shortest escape (two-character form where RFC 8259 has one, lower-case \\u00xx otherwise), other well-formed sequences are copied, U+2028/9 are escaped under EscapeForJS, '<' '>' '&' under EscapeForHTML, each ill-formed byte becomes one U+FFFD; dst's prefix and src are unchanged. NeedEscape(src) is exactly 'some unit needs escaping under some option or is ill-formed'. appendEscapedASCII/UTF16/Unicode emit the exact bytes. ConsumeStringResumable's canonical/verbatim flags are exact (used to decide when a string may be copied through unchanged).",
         "note": "Not decided by proof unless listed in the evidence: AppendUnquote and the round-trip lemma, ReformatString's three branches, that no other path writes strings to the output (arshal layer, pre-quoted struct names).",
         "ref": "DESIGN.md §3 C11",
+    },
+    "C16": {
+        "text": "Proof of the position algebra of the coders: decodeBuffer/encodeBuffer offsetAt and previousOffset* are baseOffset plus the buffer position; fetch keeps the absolute offsets of prevStart/prevEnd and of every retained byte (baseOffset' + prevStart' = baseOffset + prevStart, window preserved) and Flush advances baseOffset by exactly the number of bytes the writer accepted, so InputOffset/OutputOffset count the bytes consumed/produced on every path including short writes and failed reads; consumeWhitespace/Literal/String/Number return positions that denote the same absolute offset across any number of refills; the objectNameStack operations (push, pop, clearLast, ReplaceLastQuotedOffset, replaceLastUnquotedName, getUnquoted, copyQuotedBuffer) maintain the representation invariant (local offsets non-decreasing and before remote ones, remote offsets inside the buffer) and copyQuotedBuffer leaves no reference into the buffer, which fetch and Flush both call before the buffer contents move; appendEscapePointerName and AppendUnquote only append.",
+        "note": "Not decided by proof: state.appendStackPointer's pointer text against a pointer specification, wrapSyntacticError's mismatched-delimiter rewrite (finding F3, DESIGN.md §5), Pointer.Parent/LastToken/Tokens/unescapePointerToken (strings.* library functions without a first-order contract), SemanticError positions (reflection callers).",
+        "ref": "DESIGN.md §3 C16",
+    },
+    "C18": {
+        "text": "Proof of history independence of the reset paths: for every prior state, state.reset, stateMachine.reset, objectNameStack.reset, objectNamespaceStack.reset and objectNamespace.reset leave the initial view (empty stacks, virtual top-level array, no names, nil name map), objectNamespaceStack.push yields an empty namespace whatever the reused slot held, pop/push leave the entries below untouched, and the capacity-retention thresholds are respected.",
+        "note": "Decided here: the history clause only (a reused or pooled coder starts from a state that is a function of the arguments). Not decided: data-race freedom and concurrent isolation (sequential contracts are silent on schedules), the pools in jsontext/pools.go and arshal.go, SeenPointers emptiness at rest (reflection), slices returned to callers never being altered later.",
+        "ref": "DESIGN.md §3 C18",
     },
     "C19": {
         "text": "Proof, for all 64-bit flag words, that Flags.Join/Set/Get/Has/Clear implement a last-wins partial map over option bit positions (Set = Join of the Bools' denotation, Join associative, per-position last-wins reading, well-formedness preserved, DefaultOptionsV2-style flags cancel every v1 default). Loop-free bit-vector obligations, all inputs.",
